@@ -268,14 +268,18 @@ def require_names(func, names, rule):
         _ANCHOR_RECORD.setdefault(fkey, {}).update({n: byname[n] for n in names if n in byname})
         with open(os.environ["VERIF_RECORD_ANCHORS"], "a") as fh:
             fh.write(json.dumps({fkey: {n: byname[n] for n in names if n in byname}}) + "\n")
-    missing = [n for n in names if n not in have]
+    if _ANCHOR_TABLE is None:
+        try:
+            _ANCHOR_TABLE = json.load(open(os.path.join(VERIF, "spec", "anchors.json")))
+        except Exception:
+            _ANCHOR_TABLE = {}
+    tab = _ANCHOR_TABLE.get(fkey, {})
+    # a name the table knows as a local / parameter must still be declared as one: a member of the same name that the function
+    # also mentions (`env->flags` next to the local `flags`) does not stand in for it
+    have_local = {p["n"] for p in func.params} | {d["n"] for n in func.nodes() if n["k"] == "decl" for d in n["decls"]} | \
+                 {n["var"] for n in func.nodes() if n["k"] == "forrange" and n.get("var")}
+    missing = [n for n in names if (n not in have_local if n in tab else n not in have)]
     if missing:
-        if _ANCHOR_TABLE is None:
-            try:
-                _ANCHOR_TABLE = json.load(open(os.path.join(VERIF, "spec", "anchors.json")))
-            except Exception:
-                _ANCHOR_TABLE = {}
-        tab = _ANCHOR_TABLE.get(fkey, {})
         fps = fingerprints(func)
         for n in list(missing):
             want = tab.get(n)
@@ -403,3 +407,37 @@ def call_result_edges(func, cfg, call):
             else:
                 fail = s_
     return succ, fail
+
+
+def null_test_edges(func, cfg, holder):
+    """(block reached where the pointer local `holder` (declaration key) was found non-null, block where it was found null):
+    `if (p)`, `if (!p)`, `p == NULL`, `NULL != p`, `p != nullptr` - any spelling of the test. (None, None) when never tested."""
+    def strip(e):
+        while e is not None and e.get("k") in ("cast", "paren"):
+            e = e["e"]
+        return e
+
+    def is_holder(e):
+        e = strip(e)
+        return e is not None and e.get("k") == "ref" and e.get("d") == holder
+
+    def is_null(e):
+        e = strip(e)
+        return e is not None and (e.get("k") == "null" or (e.get("k") == "int" and e.get("v") == 0) or astq.const_value(e) == 0)
+    nonnull = null = None
+    for (a, s_, c, t) in cfg.cond_edges():
+        cn = strip(func.node_by_id(c))
+        if cn is None:
+            continue
+        pol = None
+        if is_holder(cn):
+            pol = t
+        elif cn.get("k") == "bin" and cn.get("op") in ("==", "!=") and ((is_holder(cn["lhs"]) and is_null(cn["rhs"])) or (is_holder(cn["rhs"]) and is_null(cn["lhs"]))):
+            pol = t if cn["op"] == "!=" else (not t)
+        if pol is None:
+            continue
+        if pol:
+            nonnull = s_
+        else:
+            null = s_
+    return nonnull, null
